@@ -70,6 +70,8 @@ def verify_one(cid, timeout_ms=10000):
         load_all()
         eng = make_engine(timeout_ms)
         ct = C.CONTRACTS[cid]
+        if ct.func == "<error-table>":
+            return verify_table(eng, ct, t0)
         res = eng.verify(ct)
         obs = []
         for ob in res["obligations"]:
@@ -93,6 +95,32 @@ def verify_one(cid, timeout_ms=10000):
     except Exception as e:
         return {"cid": cid, "ok": False, "error": f"{type(e).__name__}: {e}", "trace": traceback.format_exc(),
                 "wall_s": round(time.time() - t0, 3)}
+
+
+def verify_table(eng, ct, t0):
+    """finite lemma decided by evaluation: the mechanically extracted decorator table (internal kind -> published code,
+    severity) against the expected table written from the property / HED specification"""
+    import hashlib
+    tab = eng.errtab
+    CODE = {k: v["code"] for k, v in tab.items()}
+    SEV = {k: v["severity"] for k, v in tab.items()}
+    K = {}
+    for cname in ("ValidationErrors", "SchemaErrors", "SchemaWarnings", "SchemaAttributeErrors", "SidecarErrors", "ColumnErrors",
+                  "DefinitionErrors", "TemporalErrors"):
+        K.update({k: v for k, v in (eng.index.class_constants(cname) or {}).items() if isinstance(v, str)})
+    obs = []
+    for lbl, e in ct.ensures.items():
+        try:
+            ok = bool(eval(e, {"CODE": CODE, "SEV": SEV, "ERROR": 1, "WARNING": 10, "K": K}))
+            detail = ""
+        except Exception as ex:
+            ok, detail = False, f"{type(ex).__name__}: {ex}"
+        obs.append({"id": f"{ct.cid}:lemma:{lbl}", "kind": "lemma", "label": lbl, "path": "-", "verdict": "unsat" if ok else "sat",
+                    "backend": "evaluation of the extracted table", "ms": 0, "top": True, "detail": detail, "info": {"clause": e},
+                    "model": {} if ok else {"table": {k: CODE.get(k) for k in sorted(CODE) if k in e}}})
+    sha = hashlib.sha256(json.dumps([CODE, SEV], sort_keys=True).encode()).hexdigest()[:16]
+    return {"cid": ct.cid, "ok": True, "obligations": obs, "paths": 1, "dead": 0, "symex_s": 0.0,
+            "wall_s": round(time.time() - t0, 3), "sha": sha, "assumptions": [], "bounded": [], "calls": {}}
 
 
 def verify_many(cids, timeout_ms=10000, workers=None):
